@@ -1002,3 +1002,25 @@ package readline
 //@   requires rl != nil && rl.Config != nil && rl.Keymap != nil && rl.Iterations != nil && rl.Display != nil && rl.Prompt != nil
 //@   at_call fmt.Printf#1 [inputrc-format] a0 == "set %s %v\n" && len(a1) == 2
 //@   at_call fmt.Printf#2 [readable-format] a0 == "%s is set to `%v'\n" && len(a1) == 2
+
+// ---------------------------------------------------------------------------------------
+// C14: the completion commands only ever move the selector over candidates that were generated for the word
+// at the cursor as it is now: either the menu was active when the command started (the main loop keeps an
+// active menu in step with the line), or the candidates have just been regenerated. A candidate list that is
+// merely still in memory (Matches() > 0) after the menu was left is stale: its prefix length no longer
+// describes the text before the cursor, and inserting from it rewrites text outside the word.
+//@ func (*Shell).menuComplete
+//@   props C14
+//@   assume_nopanic the completion engine's Select and the display are outside this contract: only when candidates are regenerated is claimed
+//@   requires fullok(rl)
+//@   at_call Engine).Select [candidates-are-for-this-word] old(completion.isactive(rl.completer)) || completion.gencount() > old(completion.gencount())
+//@ func (*Shell).menuCompleteBackward
+//@   props C14
+//@   assume_nopanic as menuComplete
+//@   requires fullok(rl)
+//@   at_call Engine).Select [candidates-are-for-this-word] old(completion.isactive(rl.completer)) || completion.gencount() > old(completion.gencount())
+//@ func (*Shell).completeWord
+//@   props C14
+//@   assume_nopanic as menuComplete
+//@   requires fullok(rl)
+//@   at_call Engine).Select [candidates-are-for-this-word] old(completion.isactive(rl.completer)) || completion.gencount() > old(completion.gencount())
